@@ -45,6 +45,7 @@ type negoScn struct {
 	Alps12       bool   `json:"alps12"`
 	AlpsSettings []int  `json:"alps_settings"`
 	ClientAlps   string `json:"client_alps"` // "has": {"h2": "CLNT"}, "lacks": {"zz": "X"}, "empty": {}, "": nil
+	ClientAlpsLen int   `json:"client_alps_len"` // with "has": settings of this many bytes instead of the 4-byte ones
 	AlpsFirst    bool   `json:"alps_first"`  // put the ALPS extension before ALPN in EncryptedExtensions
 	// client authentication: 0 none, 1 server requests a certificate and the client has none,
 	// 2 server requests one and the client presents it
@@ -58,6 +59,13 @@ type negoScn struct {
 	KSReverse bool `json:"ks_reverse"`
 	// KSList: the parrot's spec as a custom spec whose key_share extension carries exactly these groups, in this order
 	KSList []int `json:"ks_list"`
+	// Edit: an edit of uconn.Extensions between an explicit BuildHandshakeState and Handshake ("alpn-http11": the ALPN
+	// list is cut down to http/1.1; "groups-drop-last": the last supported group is removed)
+	Edit string `json:"edit"`
+	// GroupsFirst: the parrot's spec as a custom spec with this group moved to the front of supported_groups (after a
+	// GREASE entry); SrvGroups: the server's whole CurvePreferences list (instead of the single scenario group)
+	GroupsFirst int   `json:"groups_first"`
+	SrvGroups   []int `json:"srv_groups"`
 	// KX*: layout of the hybrid key exchange the test server performs itself (spec/Negotiation.tla HybridLayout)
 	KXShare  string `json:"kx_share"`
 	KXSecret string `json:"kx_secret"`
@@ -236,6 +244,12 @@ func runNego(s negoScn, rawScn json.RawMessage, pk *hlib.PKI, certs map[string]t
 	if s.Group != 0 {
 		scfg.CurvePreferences = []tls.CurveID{tls.CurveID(s.Group)}
 	}
+	if len(s.SrvGroups) > 0 {
+		scfg.CurvePreferences = nil
+		for _, g := range s.SrvGroups {
+			scfg.CurvePreferences = append(scfg.CurvePreferences, tls.CurveID(g))
+		}
+	}
 	if s.KXSecret != "" {
 		// a hybrid group the in-tree server lacks: its group selection is overridden and the key exchange is done
 		// by the harness following the layout of the scenario (kx.go)
@@ -343,6 +357,14 @@ func runNego(s negoScn, rawScn json.RawMessage, pk *hlib.PKI, certs map[string]t
 	switch s.ClientAlps {
 	case "has":
 		ccfg.ApplicationSettings = map[string][]byte{"h2": []byte("CLNT"), "http/1.1": []byte("CLN1")}
+		if s.ClientAlpsLen > 0 {
+			// settings of a chosen length; byte i (from 0) is (7i+3) mod 256, as spec/NegoTrace.tla ClientSettingsFor says
+			b := make([]byte, s.ClientAlpsLen)
+			for i := range b {
+				b[i] = byte(7*i + 3)
+			}
+			ccfg.ApplicationSettings = map[string][]byte{"h2": b, "http/1.1": b}
+		}
 	case "lacks":
 		ccfg.ApplicationSettings = map[string][]byte{"zz": []byte("X")}
 	case "empty":
@@ -368,7 +390,7 @@ func runNego(s negoScn, rawScn json.RawMessage, pk *hlib.PKI, certs map[string]t
 	}
 	nch := 0
 	runID := id
-	if s.NoReneg || s.KSReverse || s.FPCopy || len(s.ExtraExts) > 0 || len(s.KSList) > 0 {
+	if s.NoReneg || s.KSReverse || s.FPCopy || len(s.ExtraExts) > 0 || len(s.KSList) > 0 || s.GroupsFirst != 0 {
 		runID = tls.HelloCustom
 	}
 	r := hlib.RunHandshake(ccfg, scfg, runID, hlib.HSOpts{Timeout: 5 * time.Second, Echo: echo, EKM: ekm, OnClientWrite: func(b []byte) {
@@ -404,7 +426,7 @@ func runNego(s negoScn, rawScn json.RawMessage, pk *hlib.PKI, certs map[string]t
 			}
 			return u.ApplyPreset(spec)
 		}
-		if s.NoReneg || s.KSReverse || len(s.ExtraExts) > 0 || len(s.KSList) > 0 {
+		if s.NoReneg || s.KSReverse || len(s.ExtraExts) > 0 || len(s.KSList) > 0 || s.GroupsFirst != 0 {
 			spec, err := tls.UTLSIdToSpec(id)
 			if err != nil {
 				return err
@@ -444,6 +466,22 @@ func runNego(s negoScn, rawScn json.RawMessage, pk *hlib.PKI, certs map[string]t
 						ks.KeyShares[i], ks.KeyShares[j] = ks.KeyShares[j], ks.KeyShares[i]
 					}
 				}
+				if sc, ok := e.(*tls.SupportedCurvesExtension); ok && s.GroupsFirst != 0 {
+					// a custom spec: the same groups, one of them moved to the front (behind a GREASE placeholder)
+					var head, rest []tls.CurveID
+					for _, g := range sc.Curves {
+						if g == tls.CurveID(s.GroupsFirst) {
+							head = append(head, g)
+						} else {
+							rest = append(rest, g)
+						}
+					}
+					if len(rest) > 0 && uint16(rest[0])&0x0f0f == 0x0a0a {
+						head = append([]tls.CurveID{rest[0]}, head...)
+						rest = rest[1:]
+					}
+					sc.Curves = append(head, rest...)
+				}
 				if ks, ok := e.(*tls.KeyShareExtension); ok && len(s.KSList) > 0 {
 					// a custom spec: exactly the listed shares (keys generated by ApplyPreset)
 					ks.KeyShares = nil
@@ -453,6 +491,25 @@ func runNego(s negoScn, rawScn json.RawMessage, pk *hlib.PKI, certs map[string]t
 				}
 			}
 			return u.ApplyPreset(&spec)
+		}
+		if s.Edit != "" {
+			// the caller builds the hello, edits an extension in uconn.Extensions, then calls Handshake (which
+			// re-marshals): what is on the wire is the edited offer, and that is what the server's choice is held against
+			if err := u.BuildHandshakeState(); err != nil {
+				return err
+			}
+			for _, e := range u.Extensions {
+				switch x := e.(type) {
+				case *tls.ALPNExtension:
+					if s.Edit == "alpn-http11" {
+						x.AlpnProtocols = []string{"http/1.1"}
+					}
+				case *tls.SupportedCurvesExtension:
+					if s.Edit == "groups-drop-last" && len(x.Curves) > 1 {
+						x.Curves = x.Curves[:len(x.Curves)-1]
+					}
+				}
+			}
 		}
 		if s.RemoveSNI {
 			return u.RemoveSNIExtension()
